@@ -409,6 +409,20 @@ func verify(args []string) int {
 		for _, o := range outs {
 			if o.Status != "discharged" && o.Status != "canary-ok" && o.Status != "structural-ok" {
 				fmt.Printf("  %-22s %-9s %6.2fs %s  [%s]\n", o.Status, o.Solver, o.Seconds, o.Obl.Name, o.Obl.Pos)
+				m := o.Model
+				tag := "model"
+				if m == nil {
+					m, tag = o.CandidateModel, "candidate model (quantified assumptions dropped)"
+				}
+				if m != nil {
+					var parts []string
+					for _, in := range o.Obl.Inputs {
+						if v, ok := m[in.Term]; ok {
+							parts = append(parts, in.Name+"="+v)
+						}
+					}
+					fmt.Printf("      %s: %s\n", tag, trunc(strings.Join(parts, " "), 400))
+				}
 			}
 		}
 		for _, r := range results {
